@@ -481,6 +481,18 @@ pub fn main(args: &Args) {
         for _ in 0..n_sel {
             items.push(Item::Select(gen_selection(&mut rng, &v)));
         }
+        // the same reference sequence split at every point between `rules` and `exclude_rules`: each split is a different
+        // selection, whatever was computed for another one in this process
+        let n_split = if args.thorough() { 1500 } else { 120 };
+        for _ in 0..n_split {
+            let n = rng.range(2, 5);
+            let toks: Vec<String> = (0..n).map(|_| token(&mut rng, &v, 0)).collect();
+            for k in 0..=n {
+                let rules = if k == 0 { None } else { Some(toks[..k].join(",")) };
+                let excl = if k == n { None } else { Some(toks[k..].join(",")) };
+                items.push(Item::Select(Sel { cls: "same-sequence-split", rules, excl }));
+            }
+        }
         // ---- lint runs
         let corpus = corpus();
         let snippets = rule_snippets();
